@@ -1,0 +1,7 @@
+//go:build !verif
+
+package kcache
+
+// verifYield marks a scheduling point for the external verification harness;
+// without the build tag verif it does nothing.
+func verifYield(string) {}
